@@ -26,6 +26,7 @@ const (
 	EnvPreforkChildKey = "ZINC_PREFORK_CHILD"
 	EnvExecTimeout     = "ZINC_EXEC_TIMEOUT"
 	EnvNamedPipeID     = "ZINC_PIPE_ID"
+	EnvMasterPid       = "ZINC_MASTER_PID"
 	EnvPreforkChildVal = "OK"
 
 	WORKER_STATE_IDLE    uint8 = 1 << 0
@@ -226,6 +227,7 @@ func (zns *ZnPMServer) spawnProcess(cfg ZnPMServerConfig, l fileListener, p *pip
 		fmt.Sprintf("%s=%s", EnvPreforkChildKey, EnvPreforkChildVal),
 		fmt.Sprintf("%s=%d", EnvExecTimeout, cfg.Timeout),
 		fmt.Sprintf("%s=%s", EnvNamedPipeID, GetPipeID(p)),
+		fmt.Sprintf("%s=%d", EnvMasterPid, os.Getpid()),
 	)
 
 	// pass connection FD to child process as ExtraFile
@@ -380,6 +382,26 @@ func (zns *ZnPMServer) StartWorker() error {
 	lf := os.NewFile(uintptr(3), fmt.Sprintf("listener-%d", pid))
 	defer lf.Close()
 
+	// kill child process when parent process exits
+	// (the master hands its pid down: a worker that is still starting when the master dies has
+	// been re-parented already by the time it could ask for its parent, and opening the status
+	// pipe of a dead master blocks for ever - so the watch starts first and knows whom to expect)
+	masterPid := os.Getppid()
+	if mp, err := strconv.Atoi(os.Getenv(EnvMasterPid)); err == nil && mp > 0 {
+		masterPid = mp
+	}
+	go func() {
+		// when the master exits, this process is re-parented: its parent is then no longer
+		// the process that started it. (Comparing with 1 is wrong when the master itself is
+		// process 1, as the entry point of a container is.)
+		const watchInterval = 500 * time.Millisecond
+		for range time.NewTicker(watchInterval).C {
+			if os.Getppid() != masterPid {
+				os.Exit(1) //nolint:revive // Calling os.Exit is fine here in the prefork
+			}
+		}
+	}()
+
 	// read pipeID from env
 	p := NewPipe(os.Getenv(EnvNamedPipeID))
 	pipeWriter, err := OpenNamedPipeWriter(p)
@@ -404,20 +426,6 @@ func (zns *ZnPMServer) StartWorker() error {
 	} else if err == nil {
 		timeout = t
 	}
-
-	// kill child process when parent process exits
-	masterPid := os.Getppid()
-	go func() {
-		// when the master exits, this process is re-parented: its parent is then no longer
-		// the process that started it. (Comparing with 1 is wrong when the master itself is
-		// process 1, as the entry point of a container is.)
-		const watchInterval = 500 * time.Millisecond
-		for range time.NewTicker(watchInterval).C {
-			if os.Getppid() != masterPid {
-				os.Exit(1) //nolint:revive // Calling os.Exit is fine here in the prefork
-			}
-		}
-	}()
 
 	for {
 		conn, err := lc.Accept()
